@@ -793,6 +793,13 @@ def family_sequence():
             yield dict(op='restart', input='', also3=(('compile', a), ('compile', b), ('compile', a), ('compile', c), ('compile', a)),
                        expect='in a fresh process: the same answer for the first, third and fifth compilation (the same input `%s`)' % a,
                        bad=lambda g0, g, g2, g3, g4, g5: not (norm(g) == norm(g3) == norm(g5)))
+    # state that leaks a little with every refused input: 300 refused inputs between two compilations of the same text
+    refused = ['( )', '( ( -true -o ) )', '( ! )', '( -name', '( ( ( -nosuch ) ) )', '-perm 99999', '-size 3K', '! ! (', '( -true , )', '-printf "%Z" (']
+    for a in ('( -name a -o ( -print0 ) )', '( ( ( -true ) ) ) -threads 2', '-name a -print', '! ( -size +1k -a ( -uid 3 -o -mmin -5 ) )'):
+        filler = tuple(('compile', refused[k % len(refused)]) for k in range(300))
+        yield dict(op='restart', input='', also3=(('compile', a),) + filler + (('compile', a),),
+                   expect='the same answer for `%s` before and after 300 refused inputs in the same process' % a,
+                   bad=lambda *gs: norm(gs[1]) != norm(gs[-1]))
 
 
 def family_structure():
@@ -825,6 +832,30 @@ def family_structure():
             b = policy_body(g[1])
             return b is None or re.sub(r'%lf3:(match|print):\d+', r'%lf3:\1:N', b) != want
         yield dict(op='ast', input=t, expect='policy body %s' % want, bad=bad)
+
+
+def family_ast_table():
+    """C10 on directly built trees: pairs of output actions — file names among them the empty string and a blank, which the parser cannot
+    produce — compile to a program whose reported table lists exactly the distinct (destination, terminator) pairs, and plain mode
+    (two newline-terminated stdout actions) reports none"""
+    nl = 'Special(Newline)'
+    acts = [('Action(Print)', "Stdout(Some('\\n'))", False), ('Action(PrintNull)', "Stdout(Some('\\0'))", True),
+            ('Action(PrintFormatted([Literal("x")]))', 'Stdout(None)', True), ('Action(PrintFormatted([Literal("x"), %s]))' % nl, 'Stdout(None)', False)]
+    for name in ('', 'a', ' '):
+        q = '"%s"' % name
+        acts += [('Action(FilePrint(%s))' % q, "File(%s, Some('\\n'))" % q, True), ('Action(FilePrintNull(%s))' % q, "File(%s, Some('\\0'))" % q, True),
+                 ('Action(FilePrintFormatted(%s, [Literal("x")]))' % q, 'File(%s, None)' % q, True)]
+    for (t1, d1, f1) in acts:
+        for (t2, d2, f2) in acts:
+            framed = f1 or f2
+            want = sorted(set([d1, d2])) if framed else []
+
+            def bad(g, want=want):
+                if g[0] != 'OK':
+                    return g[0] == 'CERR'
+                vals = sorted(e.partition('=')[2] for e in (g[2] if len(g) > 2 else '').split(';') if e)
+                return vals != want or program_defects(g[1], g[2] if len(g) > 2 else '') is not None
+            yield dict(op='ast', input='And(%s, %s)' % (t1, t2), expect='table = %s' % (want or 'none (plain mode)'), bad=bad)
 
 
 def family_refusal():
@@ -1463,7 +1494,7 @@ FAMILY_RULES = [
     (r'^C1[01]\.', (family_grammar_structure,)),
     (r'\.matcher\.|get_matcher|matcher_name|matcher_ref', (family_matchers, family_hostile, family_long, family_ast_structure)),
     (r'\.(printer|file_port|default_port)\.|get_printer|get_file_printer|printer_name|printer_ref|printf_ref|^C10\.(table|top|routing|terminator_text)|\.definitions$',
-     (family_table, family_long, family_determinism, family_ast_structure)),
+     (family_table, family_ast_table, family_long, family_determinism, family_ast_structure)),
     (r'^C12\.', (family_refusal, family_ast_refusal, family_parse_refusal, family_option_nodes)),
     (r'^C09\.|^C19\.action', (family_wrap, family_wrap_body, family_structure, family_precedence)),
     (r'^SAFETY\.|^C11\.budget', (family_panics, family_long, family_ast, family_perm, family_grammar)),
@@ -1537,7 +1568,7 @@ CANNED = {
 BOUNDED_STANDINS = {
     'C15': [('BOUNDED.sequence', 'BOUNDED.sequence', 'find_parser::parse (outside the verifier: whether it keeps state between calls is not decided by proof) and the whole '
              'pipeline — bounded stand-in: for all ordered pairs A, B of twenty inputs (output modes, matchers, printers, time tests, refusals, options after the start of the '
-             'expression, rejected inputs) the sequence A, B, A, C, A in one process answers A identically three times'),
+             'expression, rejected inputs) the sequence A, B, A, C, A in a fresh process answers A identically three times, and four texts are answered identically before and after 300 refused inputs'),
             ('BOUNDED.clock_window', 'BOUNDED.clock_window', 'compile_time_comp\'s clock read (SystemTime: no clock model in the verifier) — bounded stand-in: five '
              'time-test compilations in one process more than a second apart, two of them right after a refused or rejected compilation that '
              'contained a time test; each embedded second must lie within its own compile call')],
